@@ -248,6 +248,19 @@ EXTRA_PROBES = [
     ("helper_error:Add", "#[derive(derive_more::Add, Debug)] pub enum E { A(i32), U }",
      _helper("::derive_more::BinaryError") + _helper("::derive_more::WrongVariantError") + _helper("::derive_more::UnitError")),
     ("helper_error:Not", "#[derive(derive_more::Not, Debug)] pub enum E { A(i32), U }", _helper("::derive_more::UnitError")),
+    # several attributes of one derive on one item (each derive's attribute-MERGING code, under that derive's feature alone)
+    ("multi_attr:Debug", "#[derive(derive_more::Debug)] #[debug(\"<{}>\", _0)] #[debug(bound(T: ::core::fmt::Display))] #[debug(bounds(T: ::core::marker::Copy))] pub struct M<T>(pub T);",
+     ['::std::format!("{:?}", m::M(7u8))']),
+    ("multi_attr:Display", "#[derive(derive_more::Display)] #[display(bound(T: ::core::fmt::Debug))] #[display(\"<{:?}>\", _0)] #[display(bounds(T: ::core::marker::Copy))] pub struct M<T>(pub T);",
+     ['::std::format!("{}", m::M(7u8))']),
+    ("multi_attr:DisplayEnum", "#[derive(derive_more::Display)] #[display(rename_all = \"snake_case\")] #[display(\"[{_variant}]\")] #[display(bound(u8: ::core::marker::Copy))] pub enum M { FooBar, Baz }",
+     ['::std::format!("{} {}", m::M::FooBar, m::M::Baz)']),
+    ("multi_attr:Into", "#[derive(derive_more::Into, Clone)] #[into(ref)] #[into(owned)] #[into(i64)] pub struct M(pub i32);",
+     ['::std::format!("{} {} {}", <i32 as ::core::convert::From<m::M>>::from(m::M(1)), <&i32 as ::core::convert::From<&m::M>>::from(&m::M(2)), <i64 as ::core::convert::From<m::M>>::from(m::M(3)))']),
+    ("multi_attr:From", "#[derive(derive_more::From)] #[from(i8)] #[from(i16, i32)] pub struct M(pub i64);",
+     ['::std::format!("{} {} {}", <m::M as ::core::convert::From<i8>>::from(1).0, <m::M as ::core::convert::From<i16>>::from(2).0, <m::M as ::core::convert::From<i32>>::from(3).0)']),
+    ("multi_attr:AsRef", "#[derive(derive_more::AsRef)] #[as_ref(str)] #[as_ref([u8], ::std::string::String)] pub struct M(pub ::std::string::String);",
+     ['::std::format!("{} {}", <m::M as ::core::convert::AsRef<str>>::as_ref(&m::M(::std::string::String::from("ab"))), <m::M as ::core::convert::AsRef<[u8]>>::as_ref(&m::M(::std::string::String::from("ab"))).len())']),
     ("generic_alone:Sum", "#[derive(derive_more::Sum)] pub struct G<T>(pub T);\n"
      "impl<T: ::core::ops::Add<Output = T>> ::core::ops::Add for G<T> { type Output = Self; fn add(self, r: Self) -> Self { G(self.0 + r.0) } }",
      ['::std::format!("{}", ::std::vec![m::G(1i32), m::G(2)].into_iter().sum::<m::G<i32>>().0)']),
